@@ -16,6 +16,7 @@ import (
 	"strings"
 
 	geom "github.com/twpayne/go-geom"
+	"github.com/twpayne/go-geom/encoding/geojson"
 
 	"verif/sim/core"
 	"verif/sim/mgeom"
@@ -53,10 +54,10 @@ func (prop) Describe() core.Description {
 			"min/max are compared numerically (-0 equals +0)",
 			"a message that is never delivered legitimately changes the answer, so the simulated network only reorders, delays and duplicates; every message reaches every replica before quiescence",
 		},
-		RealComponents: []string{"go-geom root package: Bounds (NewBounds, Extend, Min, Max, Layout, IsEmpty, Overlaps, OverlapsPoint, Polygon, Clone), T.Bounds() of all seven types"},
+		RealComponents: []string{"go-geom root package: Bounds (NewBounds, Extend, Min, Max, Layout, IsEmpty, Overlaps, OverlapsPoint, Polygon, Clone), T.Bounds() of all seven types", "encoding/geojson (Marshal with EncodeGeometryWithBBox)"},
 		StubComponents: []string{"the network between message source and replicas (seeded delivery order and duplication)"},
 		FaultKinds:     []string{"reordered-delivery", "duplicate-delivery"},
-		Probes:         []string{"probe:xym-then-xyz", "probe:xyz-then-xym", "probe:xym-into-xyzm", "probe:xyz-into-xyzm", "probe:nested-collection-message", "probe:collection-message", "probe:empty-message-promotes-layout", "probe:mixed-layout-collection-bounds", "probe:overlap-true", "probe:overlap-false", "probe:point-overlap-true", "probe:point-overlap-false"},
+		Probes:         []string{"probe:xym-then-xyz", "probe:xyz-then-xym", "probe:xym-into-xyzm", "probe:xyz-into-xyzm", "probe:nested-collection-message", "probe:collection-message", "probe:empty-message-promotes-layout", "probe:mixed-layout-collection-bounds", "probe:overlap-true", "probe:overlap-false", "probe:point-overlap-true", "probe:point-overlap-false", "probe:geojson-bbox-checked"},
 	}
 }
 
@@ -296,6 +297,40 @@ func describeBounds(b *geom.Bounds) string {
 	return sb.String()
 }
 
+// finite reports whether every ordinate is finite and every Z dimension the
+// box would carry has data (JSON cannot carry infinities).
+func finite(m *mgeom.Geom) bool {
+	ok := true
+	hasZLayout, hasZData := false, false
+	m.EachCoord(func(l int, c mgeom.Coord) {
+		for _, o := range c {
+			if math.IsInf(float64(o), 0) || math.IsNaN(float64(o)) {
+				ok = false
+			}
+		}
+		if l == 2 || l == 4 {
+			hasZData = true
+		}
+	})
+	var walk func(g *mgeom.Geom)
+	walk = func(g *mgeom.Geom) {
+		if g.T == mgeom.GC {
+			if g.Fixed && (g.L == 2 || g.L == 4) {
+				hasZLayout = true
+			}
+			for _, c := range g.G {
+				walk(c)
+			}
+			return
+		}
+		if g.L == 2 || g.L == 4 {
+			hasZLayout = true
+		}
+	}
+	walk(m)
+	return ok && (!hasZLayout || hasZData)
+}
+
 func layoutsIn(m *mgeom.Geom, withCoordsOnly bool, out map[int]bool) {
 	if m.T == mgeom.GC {
 		for _, g := range m.G {
@@ -375,6 +410,73 @@ func (prop) Execute(scAny any, phase string, log *core.Log) core.Result {
 			return res
 		}
 		msgBounds[i] = b
+		// Bounds.Polygon: the box as a two-dimensional polygon
+		var poly *geom.Polygon
+		if p := core.Guard(func() { poly = b.Polygon() }); p != "" {
+			res.Fail("panic", "panic:polygon:"+core.PanicSite(p), "Bounds.Polygon() panicked: %s", p)
+			return res
+		}
+		res.Steps++
+		if b.IsEmpty() {
+			if poly == nil || poly.Layout() != geom.XY || len(poly.FlatCoords()) != 0 {
+				res.Fail("bounds-polygon-wrong", "bounds-polygon-wrong:empty", "Polygon() of the empty box %s is not the empty XY polygon", describeBounds(b))
+				return res
+			}
+		} else {
+			var pb box
+			if poly != nil && poly.Layout() == geom.XY {
+				fc := poly.FlatCoords()
+				for k := 0; k+1 < len(fc); k += 2 {
+					pb.add(0, fc[k])
+					pb.add(1, fc[k+1])
+				}
+			}
+			if !pb.has[0] || pb.min[0] != b.Min(0) || pb.max[0] != b.Max(0) || pb.min[1] != b.Min(1) || pb.max[1] != b.Max(1) || poly.NumLinearRings() != 1 {
+				res.Fail("bounds-polygon-wrong", "bounds-polygon-wrong", "Polygon() of the box %s is %v", describeBounds(b), poly.FlatCoords())
+				return res
+			}
+		}
+		// the GeoJSON bounding box is the same box (non-empty geometries only:
+		// an empty box has no JSON representation)
+		if !empty && finite(m) {
+			var js []byte
+			var jerr error
+			if p := core.Guard(func() { js, jerr = geojson.Marshal(g, geojson.EncodeGeometryWithBBox()) }); p != "" {
+				res.Fail("panic", "panic:geojson-bbox:"+core.PanicSite(p), "geojson.Marshal with a bounding box panicked on %s: %s", m, p)
+				return res
+			}
+			res.Steps++
+			if jerr != nil {
+				res.Count("geojson-bbox-not-encodable", 1)
+			} else {
+				var doc struct {
+					BBox []float64 `json:"bbox"`
+				}
+				if err := json.Unmarshal(js, &doc); err != nil {
+					res.Fail("geojson-bbox-wrong", "geojson-bbox-wrong:not-json", "geojson.Marshal with a bounding box produced invalid JSON %s: %v", js, err)
+					return res
+				}
+				want := []float64{boxes[i].min[0], boxes[i].min[1], boxes[i].max[0], boxes[i].max[1]}
+				if zi := b.Layout().ZIndex(); zi >= 0 && b.Layout() != geom.NoLayout {
+					zmin, zmax := math.Inf(1), math.Inf(-1)
+					if boxes[i].has[2] {
+						zmin, zmax = boxes[i].min[2], boxes[i].max[2]
+					}
+					want = []float64{boxes[i].min[0], boxes[i].min[1], zmin, boxes[i].max[0], boxes[i].max[1], zmax}
+				}
+				same := len(doc.BBox) == len(want)
+				for k := range want {
+					if same && doc.BBox[k] != want[k] {
+						same = false
+					}
+				}
+				res.Count("probe:geojson-bbox-checked", 1)
+				if !same {
+					res.Fail("geojson-bbox-wrong", "geojson-bbox-wrong:"+m.T, "the GeoJSON bounding box of %s is %v, the coordinates span %v", m, doc.BBox, want)
+					return res
+				}
+			}
+		}
 	}
 	// replicas
 	reps := make([]*geom.Bounds, len(s.Deliveries))
